@@ -23,6 +23,7 @@ class Abort(BaseException):
 
 
 NEW, RUNNABLE, BLOCKED, DONE = "new", "runnable", "blocked", "done"
+FAIRNESS_BOUND = 300_000     # consecutive yield points one thread may run while others are runnable
 
 _ACTIVE = None          # the Scheduler currently running (one per process at a time)
 _real_allocate = _thread.allocate_lock
@@ -64,15 +65,18 @@ class SimLock:
             return True
         s.stats["lock_acquire"] = s.stats.get("lock_acquire", 0) + 1
         s.yield_point(t, 3, 7001, 0)
+        timed = blocking and timeout is not None and timeout >= 0
         while True:
             if self._real.acquire(False):
                 self._owner = _thread.get_ident()
                 self._count = 1
                 return True
-            if not blocking:
+            if not blocking or (timed and timeout == 0):
                 return False
             s.stats["lock_blocked"] = s.stats.get("lock_blocked", 0) + 1
-            s.block(t, self)
+            if not s.block(t, self, timed):
+                s.stats["lock_timeout"] = s.stats.get("lock_timeout", 0) + 1
+                return False                      # simulated time-out (fires only when nothing else can run)
 
     def release(self):
         s, t = self._me()
@@ -122,10 +126,26 @@ class SimRLock(SimLock):
         self._count, self._owner = st
 
 
+def sim_sleep(seconds):
+    """time.sleep on a simulated thread: no real waiting, but a point where another thread is preferred."""
+    s = _ACTIVE
+    t = s.by_ident.get(_thread.get_ident()) if s is not None else None
+    if t is None:
+        return _real_sleep(seconds)
+    s.stats["sleep"] = s.stats.get("sleep", 0) + 1
+    s.yield_point(t, 4, 7003, 0)
+
+
+_real_sleep = time.sleep
+
+
 def install_locks():
-    """Must run before `pyab_experiment` is imported (covers `from threading import Lock` too)."""
+    """Must run before `pyab_experiment` is imported (covers `from threading import Lock` too).
+    threading.Condition / Event / Semaphore build on these names, so they become simulator-aware as well."""
     threading.Lock = SimLock
+    threading._allocate_lock = SimLock
     threading.RLock = SimRLock
+    time.sleep = sim_sleep
 
 
 # ---------------------------------------------------------------------------
@@ -230,7 +250,7 @@ class ReplayChooser:
 # scheduler
 # ---------------------------------------------------------------------------
 class SimThread:
-    __slots__ = ("idx", "gate", "state", "ycount", "body", "blocked_on", "error", "ident")
+    __slots__ = ("idx", "gate", "state", "ycount", "body", "blocked_on", "error", "ident", "timed", "timed_out")
 
     def __init__(self, idx, body):
         self.idx = idx
@@ -242,6 +262,8 @@ class SimThread:
         self.blocked_on = None
         self.error = None
         self.ident = None
+        self.timed = False
+        self.timed_out = False
 
 
 class Scheduler:
@@ -264,6 +286,7 @@ class Scheduler:
         self.main_gate.acquire()
         self.stats = {}
         self.hot_points = 0
+        self.run_len = 0
 
     # -- called on the simulated threads ----------------------------------------
     def yield_point(self, t, cls, code_h, pos):
@@ -280,7 +303,15 @@ class Scheduler:
             self.abort = "step cap exceeded"
             raise Abort(self.abort)
         to = self.chooser.pick(self, t, cls)
+        if to is None or to is t:
+            self.run_len += 1
+            if cls == 4 or self.run_len > FAIRNESS_BOUND:
+                # a sleeping thread, or one that ran very long (a spin-wait?), lets somebody else go first
+                others = [x for x in self.threads if x.state == RUNNABLE and x is not t]
+                if others and not isinstance(self.chooser, ReplayChooser):
+                    to = self.chooser.pick_forced(self, others)
         if to is not None and to is not t:
+            self.run_len = 0
             self._switch(t, to)
 
     def _switch(self, t, to):
@@ -293,21 +324,40 @@ class Scheduler:
         if self.abort is not None:
             raise Abort(self.abort)
 
-    def block(self, t, lock):
-        """Current thread cannot take `lock`: park it until somebody releases the lock."""
+    def block(self, t, lock, timed=False):
+        """Current thread cannot take `lock`: park it until somebody releases the lock.
+        Returns True when woken by a release, False when a (simulated) time-out fired."""
         if self.abort is not None:
             raise Abort(self.abort)
         t.ycount += 1
         t.state = BLOCKED
         t.blocked_on = lock
+        t.timed = timed
+        t.timed_out = False
         runnable = [x for x in self.threads if x.state == RUNNABLE]
         if not runnable:
-            self.deadlock = {"blocked": [x.idx for x in self.threads if x.state == BLOCKED]}
-            self.abort = "deadlock"
-            t.state = RUNNABLE
-            raise Abort(self.abort)
-        to = self.chooser.pick_forced(self, runnable)
-        self._switch(t, to)
+            if not self._fire_timeout():
+                self.deadlock = {"blocked": [x.idx for x in self.threads if x.state == BLOCKED]}
+                self.abort = "deadlock"
+                t.state = RUNNABLE
+                raise Abort(self.abort)
+            runnable = [x for x in self.threads if x.state == RUNNABLE]
+        if runnable == [t]:
+            return not t.timed_out
+        to = self.chooser.pick_forced(self, [x for x in runnable if x is not t] or runnable)
+        if to is not t:
+            self._switch(t, to)
+        return not t.timed_out
+
+    def _fire_timeout(self):
+        """Nothing can run: simulated time jumps to the earliest pending lock time-out (lowest thread index)."""
+        for x in self.threads:
+            if x.state == BLOCKED and x.timed:
+                x.state = RUNNABLE
+                x.blocked_on = None
+                x.timed_out = True
+                return True
+        return False
 
     def unblock(self, lock):
         for x in self.threads:
@@ -356,6 +406,12 @@ class Scheduler:
             to.gate.release()
             return
         blocked = [x for x in self.threads if x.state == BLOCKED]
+        if blocked and self._fire_timeout():
+            to = [x for x in self.threads if x.state == RUNNABLE][0]
+            self.decisions.append((t.idx, t.ycount, to.idx))
+            self.current = to
+            to.gate.release()
+            return
         if blocked:
             self.deadlock = {"blocked": [x.idx for x in blocked]}
             self.abort = "deadlock"
